@@ -42,6 +42,8 @@ def gen_program(seed, idx, tier):
     if rs.below(2):
         g.targets = ["q", "r", "nd", "nr"]
         g.partial = True
+        if rs.below(2):
+            g.targets += ["rx", "nx"]
     g.on_reset = rs.below(4) == 0
     g.push = rs.below(3) == 0
     prog = g.program()
